@@ -55,11 +55,33 @@ def gen_holes(rng, k):
     return L
 
 
+def gen_gather(rng, k):
+    """hand-chained gather writes of two or three buffers whose FIRST buffers are larger than what the
+    congestion window takes, so that a write stops in the middle of a buffer that is not the last one;
+    the reader logs the bytes: they must be a prefix of the concatenation of what each write REPORTED
+    as written (the first n bytes of its gather list), and the whole of it once EOF is seen"""
+    from .ncommon import Net, A1
+    r = rng
+    net = Net(r, nnodes=2, bw=r.choice([0, 800000, 50000000]), lat=r.choice([0, 1000000, 30000000]))
+    L = net.lines
+    L += ["M acc_new 1 1", "M tcp_open 1 1", "M tcp_bind 1 0 0 1337", "M listen 1 10", "M tcp_new 2 1", "M tcp_new 3 2",
+          "M accept 1 2 0 10", "M tcp_connect 3 0 %d 1337 11" % A1]
+    h = 11
+    for j in range(r.choice([2, 3, 5])):
+        bufs = [r.choice([4000, 3000, 2951, 1476, 6000, 100])] + [r.choice([300, 1475, 1, 2000, 0]) for _ in range(r.choice([1, 2]))]
+        L.append("H %d tcp_write 3 %d : %s" % (h, 200 + j, " ".join("%d %d" % (r.randrange(1000), n) for n in bufs)))
+        h = 200 + j
+    L += ["H %d expires_after 5 %d" % (h, r.choice([500000000, 2000000000])), "H %d async_wait 5 14" % h, "H 14 tcp_close 3",
+          "H 10 tcp_read_loop 2 %d 13" % r.choice([4096, 700, 1475, 65536]), "M run"]
+    return L
+
+
 def generate(rng, tier):
     base = tcommon.generate_flavour("loss")(rng, tier)
     n = 25 if tier == "quick" else 600
     nh = 25 if tier == "quick" else 600
-    return base + [("reuse%d" % k, gen_reuse(rng, k)) for k in range(n)] + [("holes%d" % k, gen_holes(rng, k)) for k in range(nh)]
+    return (base + [("reuse%d" % k, gen_reuse(rng, k)) for k in range(n)] + [("holes%d" % k, gen_holes(rng, k)) for k in range(nh)]
+            + [("gather%d" % k, gen_gather(rng, k)) for k in range(nh)])
 classify = tcommon.classify
 nontrivial = tcommon.nontrivial
 
@@ -74,9 +96,24 @@ def oracle(lines, trace):
     for l in lines:
         t = l.split()
         if t[:4] == ["H", "10", "tcp_read_loop", "2"]:
-            w = [x.split() for x in lines if x.startswith("H 11 tcp_write_all 3 ")][0]
-            seed, total = int(w[4]), int(w[5])
-            exp = bytes(pat(seed, total))
+            wa = [x.split() for x in lines if x.startswith("H 11 tcp_write_all 3 ")]
+            if wa:
+                seed, total = int(wa[0][4]), int(wa[0][5])
+                exp = bytes(pat(seed, total))
+            else:
+                # gather writes: what each write reported as written is the first n bytes of its gather list
+                lists = {}
+                for x in lines:
+                    u = x.split()
+                    if len(u) > 5 and u[0] == "H" and u[2] == "tcp_write" and u[3] == "3":
+                        c = u.index(":")
+                        data = b"".join(bytes(pat(int(u[i]), int(u[i + 1]))) for i in range(c + 1, len(u) - 1, 2))
+                        lists[int(u[4])] = data
+                exp = b""
+                for (tt, tag, f) in parse_trace(trace):
+                    if tag == 1 and f[0] in lists and len(f) >= 3 and f[1] == 0:
+                        exp += lists[f[0]][:f[2]]
+                total = len(exp)
             got = b""
             eof = False
             for (tt, tag, f) in parse_trace(trace):
